@@ -12,6 +12,7 @@ package main
 import (
 	"encoding/binary"
 	"encoding/json"
+	"errors"
 	"flag"
 	"fmt"
 	"math/rand"
@@ -59,6 +60,12 @@ type Cfg struct {
 	Forged int `json:"forged_one_in"`
 	// dedicated run: this many isolated temporary receive errors, each followed by a small inbound batch (1/3 s each)
 	RecvErrs int `json:"recv_errs"`
+	// this many extra goroutines flush the peers concurrently with the TUN reader (keepalives, UAPI sets) during
+	// the traffic: no order is promised then, the outbound lanes are judged as multisets (exactly once, processed)
+	Flushers int `json:"flushers"`
+	// the interface goes down and up this many times DURING the outbound flood (sessions are re-established by a
+	// responder loop); outbound lanes: at most once, processed
+	Cycles int `json:"down_up_cycles"`
 }
 
 type OLane struct {
@@ -82,6 +89,8 @@ type Case struct {
 	Info  map[string]any `json:"info"`
 	// index of the peer removed during the run (-1 = none): its lanes only have to be prefixes
 	Removed int `json:"removed"`
+	// how the outbound lanes are judged: "" = order + counters, "multi" = exactly once, "atmost" = at most once
+	Mode string `json:"mode,omitempty"`
 }
 
 func pktLen2(r *rand.Rand, c Cfg) int {
@@ -129,6 +138,12 @@ func runCase(c Cfg) Case {
 	w.Timeout = 10 * time.Second
 	info := map[string]any{}
 	cs := Case{Cfg: c, Info: info, Removed: -1}
+	if c.Flushers > 0 {
+		cs.Mode = "multi"
+	}
+	if c.Cycles > 0 {
+		cs.Mode = "atmost"
+	}
 	fail := func(msg string) Case {
 		// the pipeline could not even be set up (or wedged while being set up): a failed run
 		info["error"] = msg
@@ -272,6 +287,95 @@ func runCase(c Cfg) Case {
 			time.Sleep(time.Duration(c.SlowWrite) * time.Microsecond)
 		}
 	}
+	// everything sent, in order (in cycle runs a responder loop drains the bind while the run goes on)
+	var allSent []sim.Sent
+	var collMu sync.Mutex
+	var collStop atomic.Bool
+	var collWg sync.WaitGroup
+	var nextIdx atomic.Uint32
+	nextIdx.Store(0x500000)
+	if c.Cycles > 0 {
+		addrPeer := map[string]int{}
+		for i, p := range peers {
+			addrPeer[p.Addr.String()] = i
+		}
+		collWg.Add(1)
+		go func() {
+			defer collWg.Done()
+			for {
+				stop := collStop.Load()
+				batch := w.Bind.TakeSent()
+				collMu.Lock()
+				allSent = append(allSent, batch...)
+				collMu.Unlock()
+				for _, s := range batch {
+					if len(s.Data) == ref.InitiationSize && s.Data[0] == ref.TypeInitiation {
+						pi, ok := addrPeer[s.To.String()]
+						if !ok {
+							continue
+						}
+						st, err := ref.ConsumeInitiation(s.Data, peers[pi].Priv)
+						if err != nil {
+							continue
+						}
+						resp, sess := st.CreateResponse(ref.NewPrivate(), peers[pi].Psk, nextIdx.Add(1))
+						collMu.Lock()
+						peers[pi].Sessions = append(peers[pi].Sessions, sess)
+						collMu.Unlock()
+						w.Bind.Inject(sim.Dgram{From: peers[pi].Addr, Data: resp})
+					}
+				}
+				if stop {
+					return
+				}
+				time.Sleep(150 * time.Microsecond)
+			}
+		}()
+	}
+	var auxStop atomic.Bool
+	var auxWg sync.WaitGroup
+	for g := 0; g < c.Flushers; g++ {
+		auxWg.Add(1)
+		go func() {
+			defer auxWg.Done()
+			on := false
+			for !auxStop.Load() {
+				if g%2 == 0 {
+					w.Dev.SendKeepalivesToPeersWithCurrentKeypair()
+				} else {
+					pi := rng.Intn(len(peers))
+					on = !on
+					v := 0
+					if on {
+						v = 3600
+					}
+					w.Dev.IpcSet(fmt.Sprintf("public_key=%x\npersistent_keepalive_interval=%d\n", peers[pi].Pub[:], v))
+				}
+				if c.PaceUs > 0 {
+					time.Sleep(time.Duration(rng.Intn(c.PaceUs+1)) * time.Microsecond)
+				} else {
+					runtime.Gosched()
+				}
+			}
+		}()
+	}
+	if c.Cycles > 0 {
+		auxWg.Add(1)
+		go func() {
+			defer auxWg.Done()
+			for k := 0; k < c.Cycles && !auxStop.Load(); k++ {
+				time.Sleep(time.Duration(2000+rng.Intn(6000)) * time.Microsecond)
+				w.Dev.Down()
+				if rng.Intn(2) == 0 {
+					time.Sleep(time.Duration(rng.Intn(300)) * time.Microsecond)
+				}
+				w.Dev.Up()
+				for _, p := range peers {
+					w.Dev.VerifShiftHandshakeTimes(cosim.NoisePK(p.Pub), 6*time.Second)
+				}
+			}
+		}()
+	}
 	t0 := time.Now()
 	var wg sync.WaitGroup
 	if c.RecvErrs > 0 {
@@ -357,10 +461,43 @@ func runCase(c Cfg) Case {
 			info["remove_hung"] = true
 		}
 	}
+	if c.Cycles > 0 {
+		// keep the flood going until the last cycle is over
+		dl := time.Now().Add(20 * time.Second)
+		done := make(chan struct{})
+		go func() { auxWg.Wait(); close(done) }()
+		select {
+		case <-done:
+		case <-time.After(time.Until(dl)):
+			info["cycles_hung"] = true
+		}
+	}
+	auxStop.Store(true)
+	{
+		done := make(chan struct{})
+		go func() { auxWg.Wait(); close(done) }()
+		select {
+		case <-done:
+		case <-time.After(10 * time.Second):
+			info["flushers_hung"] = true
+		}
+	}
 	cs.Quiet = w.Settle()
 	info["wall_ms"] = time.Since(t0).Milliseconds()
 	per.Stop()
-	sent := w.Bind.TakeSent()
+	collStop.Store(true)
+	collWg.Wait()
+	collMu.Lock()
+	sent := append(allSent, w.Bind.TakeSent()...)
+	collMu.Unlock()
+	if _, hung := info["cycles_hung"]; hung {
+		cs.Quiet = false
+		cs.Out[0].Bad++ // Down/Up never returned: the pipeline is wedged
+	}
+	if _, hung := info["flushers_hung"]; hung {
+		cs.Quiet = false
+		cs.Out[0].Bad++
+	}
 	written := w.Tun.TakeWritten()
 	closed := make(chan struct{})
 	go func() { w.Close(); close(closed) }()
@@ -382,14 +519,28 @@ func runCase(c Cfg) Case {
 			continue
 		}
 		l := &cs.Out[pi]
+		if cs.Mode != "" && len(s.Data) == ref.InitiationSize && s.Data[0] == ref.TypeInitiation {
+			continue // handshakes are expected in these runs
+		}
 		if len(s.Data) < 32 || s.Data[0] != ref.TypeTransport {
 			l.Bad++ // not a transport message at all (e.g. emitted before encryption)
 			continue
 		}
-		_, ctr, pt, err := peers[pi].Session().OpenTransport(s.Data)
+		var ctr uint64
+		var pt []byte
+		err := errors.New("no session")
+		ridx := binary.LittleEndian.Uint32(s.Data[4:8])
+		for _, sess := range peers[pi].Sessions {
+			if sess.LocalIdx == ridx {
+				_, ctr, pt, err = sess.OpenTransport(s.Data)
+			}
+		}
 		if err != nil {
 			l.Bad++
 			continue
+		}
+		if cs.Mode != "" && len(pt) == 0 {
+			continue // a keepalive of one of the extra flushers: well-formed, carries no packet
 		}
 		flow, seq, _, okp := stress.Parse(pt)
 		if !okp || int(flow) != pi {
@@ -473,6 +624,17 @@ func gallina(c Case) string {
 		full.Out = append(append([]OLane{}, c.Out[:c.Removed]...), c.Out[c.Removed+1:]...)
 		full.In = append(append([]ILane{}, c.In[:c.Removed]...), c.In[c.Removed+1:]...)
 	}
+	var mout, uout []OLane
+	switch c.Mode {
+	case "multi":
+		mout, full.Out = full.Out, nil
+	case "atmost":
+		uout, full.Out = full.Out, nil
+	}
+	onlyOut := func(ls []OLane) string { // "[ol ..; ol ..]"
+		t := strings.TrimPrefix(gallinaLanes(ls, nil), "mk ")
+		return strings.TrimSuffix(t, " []")
+	}
 	b.WriteString(gallinaLanes(full.Out, full.In))
 	fmt.Fprintf(&b, " %v [", c.Quiet)
 	for i, l := range full.Out {
@@ -483,6 +645,7 @@ func gallina(c Case) string {
 	}
 	b.WriteString("] ")
 	b.WriteString(strings.TrimPrefix(gallinaLanes(pout, pin), "mk "))
+	b.WriteString(" " + onlyOut(mout) + " " + onlyOut(uout))
 	return b.String()
 }
 
@@ -574,6 +737,26 @@ func genCfg(r *rand.Rand, i int, pkts int) Cfg {
 			c.NOut = 3000
 		}
 		c.NIn = 1000
+	}
+	switch i % 12 {
+	case 2, 8:
+		// several flushers per peer (TUN reader + keepalive callers + UAPI sets) with tiny batches on few Ps: the window
+		// between "visible on the peer's queue" and "locked / on the work queue" is crossed as often as possible
+		c.Flushers = 2 + r.Intn(5)
+		c.TunBatch, c.BindBatch, c.ChunkMax = []int{1, 1, 2}[r.Intn(3)], []int{1, 8}[r.Intn(2)], []int{1, 2, 8}[r.Intn(3)]
+		c.Procs = []int{2, 2, 3, 4, 1}[r.Intn(5)]
+		c.PaceUs = []int{0, 5, 30}[r.Intn(3)]
+		c.BigMix, c.Huge, c.Forged = false, false, 0
+		c.Hogs, c.OneIn = []int{0, 1}[r.Intn(2)], 0
+		c.NIn = 200
+	case 4, 10:
+		// the interface goes down and up several times during a flood of large packets on few Ps
+		c.Cycles = 4 + r.Intn(6)
+		c.Peers, c.Huge = 2+r.Intn(2), true
+		c.TunBatch, c.ChunkMax, c.PaceUs = []int{64, 128}[r.Intn(2)], 256, 0
+		c.Procs = []int{2, 2, 3}[r.Intn(3)]
+		c.Hogs, c.OneIn, c.Forged = 0, 0, 0
+		c.NOut, c.NIn = 4*c.NOut, 0
 	}
 	if i%6 == 5 { // a slow consumer with single-packet containers: the 1024-deep per-peer queues fill up
 		c.BindBatch, c.TunBatch, c.ChunkMax, c.PaceUs = 1, 1, 256, 0
